@@ -76,9 +76,8 @@ Print Assumptions C16_transcode_permutation.
    reader's state after the preceding entries).  With C16_chronological that open directive is
    dated on or before the transaction.  This is the checker's invariant (check_proc accepted
    the posting) carried through Valuate and Transcode.
-   NOT proved: that the asset/liability account A of a value adjustment is still open (true of
-   the code: a position with a non-zero quantity cannot have been closed; it needs the coupling
-   of Check's and Valuate's quantity maps).  The executable spec checks it on every case. *)
+   The asset/liability account A of a value adjustment is still open as well:
+   C16_adjusted_account_open at the end of this file. *)
 Theorem C16_open_before_use : forall l v sds days pre t post,
   transcode_days l v sds = COk days ->
   transcode_entries days [] = pre ++ BTxn t :: post ->
@@ -155,3 +154,171 @@ Proof. vm_compute. reflexivity. Qed.
 Theorem C16_no_valuation_is_error : forall l ds, transcode_cmd l None ds = CErr k_valuation [].
 Proof. reflexivity. Qed.
 Print Assumptions C16_no_valuation_is_error.
+
+(* ================================================================== no adjustment lost or doubled *)
+(* (3'), the clause Spec/BeancountMtmSpec.v adds to the executable verdict: in the emitted ledger
+   the postings on every asset/liability account add up to the account's market value on the
+   journal's last day, Sum_c Q_T(a,c) * p_T(c) (Spec/ValuationSpec.v market_value: quantities and
+   normalised prices straight from the directives), within ValuationSpec.step_bound * 10^-8 (one
+   per booking of the account, one per (day of the journal, held commodity), + 1).
+   Proofs/TranscodeMtmCell.v (one cell: Sort permutes a day's transactions, Check changes nothing,
+   C03_mark_to_market for ComputePrices+Valuate, the builder's days carry the journal's quantities
+   and prices; a commodity never booked on the account is never revalued) and
+   Proofs/TranscodeMtmSum.v (sum over the held commodities, the step count, decimals).
+   Side condition: the parser's guarantee on account names (postings_syntactic, as in C03/C02/C04:
+   C03_syntactic_sufficient).  The steps are counted inside the window [first_date, last_date] of
+   the journal (dates of the year 0000 are negative day numbers: see C16_mtm_year0_example). *)
+From Coq Require Import QArith Qabs.
+From Knut Require Import Model.Price Spec.WellformedSpec Spec.LedgerSpec Spec.LedgerSyntax Spec.MarkToMarketSpec Spec.ValuationSpec
+     Spec.MarkToMarketReportSpec Spec.BeancountMtmSpec Spec.TranscodeMtmSpec
+     Proofs.DecValue Proofs.TranscodeMtmCell Proofs.TranscodeMtmSum.
+Open Scope Z_scope.
+
+(* on the days handed to beancount.Transcode: the exact decimal sum of the values posted to a *)
+Theorem C16_account_totals_mark_to_market : forall l v sds dl days a e,
+  parse_directives sds = MOk dl -> postings_syntactic dl ->
+  transcode_days l v sds = COk days ->
+  account_ok a = true -> is_AL a = true ->
+  market_value dl v a (last_date dl) = Some e ->
+  within_bound (posted_total a (days_postings days)) e (step_bound dl a (first_date dl) (last_date dl)) = true.
+Proof. exact transcode_account_total. Qed.
+Print Assumptions C16_account_totals_mark_to_market.
+
+(* on the emitted ledger, in the reader's vocabulary: the clause of c16_verdict_mtm finds nothing *)
+Theorem C16_ledger_mark_to_market : forall l v sds dl days,
+  parse_directives sds = MOk dl -> postings_syntactic dl ->
+  transcode_days l v sds = COk days ->
+  mtm_check dl v (erase_entries v (transcode_entries days [])) = [].
+Proof. exact transcode_mtm_check. Qed.
+Print Assumptions C16_ledger_mark_to_market.
+
+(* the account total the reader computes from the ledger is the total of the days' postings *)
+Theorem C16_ledger_total_is_days_total : forall v a days,
+  (dvalue (ledger_total (erase_entries v (transcode_entries days [])) (acc_name a))
+   == dvalue (posted_total a (days_postings days)))%Q.
+Proof. intros v a days. rewrite ledger_total_days, posted_total_value. reflexivity. Qed.
+Print Assumptions C16_ledger_total_is_days_total.
+
+(* behind them, per commodity, for any date T on or after the last directive: a commodity other than V is carried at quantity * latest price up to 10^-8 per
+   booking of (a, c) and per day of the journal; V itself exactly at its quantity; a commodity the
+   account never books gets no posting at all (so no adjustment can come from nowhere) *)
+Theorem C16_position_mark_to_market : forall l v sds dl days a c T,
+  parse_directives sds = MOk dl -> postings_syntactic dl -> (forall d, In d dl -> directive_date d <= T) ->
+  transcode_days l v sds = COk days ->
+  account_ok a = true -> is_AL a = true -> c <> v ->
+  (Qabs (cell_value a c (days_postings days) - mv_cell dl v a c T)
+   <= inject_Z (cell_bookings dl a c + Z.of_nat (length (WellformedSpec.dates dl))) * (1 # 100000000))%Q.
+Proof.
+  intros l v sds dl days a c T Hl Hsyn HT. apply transcode_cell; assumption.
+Qed.
+Print Assumptions C16_position_mark_to_market.
+
+Theorem C16_valuation_commodity_at_quantity : forall l v sds dl days a T,
+  parse_directives sds = MOk dl -> postings_syntactic dl -> (forall d, In d dl -> directive_date d <= T) ->
+  transcode_days l v sds = COk days ->
+  (cell_value a v (days_postings days) == mv_cell dl v a v T)%Q.
+Proof.
+  intros l v sds dl days a T Hl Hsyn HT. apply transcode_cell_V; assumption.
+Qed.
+Print Assumptions C16_valuation_commodity_at_quantity.
+
+Theorem C16_unbooked_commodity_not_posted : forall l v sds dl days a c,
+  parse_directives sds = MOk dl -> postings_syntactic dl ->
+  transcode_days l v sds = COk days ->
+  account_ok a = true -> is_AL a = true ->
+  (forall d p, In (d, p) (flat_postings dl) -> cellb a c p = false) ->
+  Forall (fun p => cellb a c p = false) (days_postings days).
+Proof.
+  intros l v sds dl days a c Hl Hsyn H Ha HAL Hn. apply (transcode_cell_unbooked l v sds dl days a c Hl Hsyn H Ha HAL).
+  unfold cell_bookings. rewrite Proofs.MarkToMarketWindow.filter_all_false; [reflexivity|].
+  intros [d p] Hin. exact (Hn d p Hin).
+Qed.
+Print Assumptions C16_unbooked_commodity_not_posted.
+
+(* the hypotheses are satisfiable and the statement is not vacuous: on the witness above (one AAPL
+   bought at 100, priced 110 two days later) Assets:P must total 110 = 1 * 110 (purchase 100 +
+   adjustment 10), allowance 5e-8; the model's ledger totals exactly 110 *)
+Example C16_mtm_example :
+  match parse_directives c16_witness, transcode_days true chf c16_witness with
+  | MOk dl, COk days =>
+    let a := acc_of_name [65;115;115;101;116;115;58;80] in
+    postings_syntactic_b dl = true /\ account_ok a = true /\ is_AL a = true /\
+    market_value dl chf a (last_date dl) = Some (mkDec 110 0) /\
+    step_bound dl a (first_date dl) (last_date dl) = 5 /\
+    posted_total a (days_postings days) = mkDec 110 0 /\
+    ledger_total (erase_entries chf (transcode_entries days [])) (acc_name a) = mkDec 110 0
+  | _, _ => False
+  end.
+Proof. vm_compute. repeat split; reflexivity. Qed.
+
+(* ================================================================== the adjusted account is open *)
+(* (4'') what C16_open_before_use leaves out for value adjustments, as far as it is true: every
+   posting on an asset/liability account -- of a user transaction or of a value adjustment -- goes
+   to an account with an open directive in force at that point of the ledger (and no later close).
+   Valuate books an adjustment only for a position whose quantity is not zero at the start of the
+   day; Check refuses to close an account with a non-zero position and refuses postings to accounts
+   that are not open; both stages add the same quantities to the same positions
+   (Proofs/TranscodeOpenAL.v: the coupling of Check's and Valuate's quantity maps).
+   The other posting of an adjustment goes to Income:..., for which the clause is false
+   (C16_valuation_open_refuted above, F16). *)
+From Knut Require Import Proofs.TranscodeOpenAL.
+Open Scope Z_scope.
+
+Theorem C16_adjusted_account_open : forall l v sds dl days pre t post,
+  parse_directives sds = MOk dl -> postings_syntactic dl ->
+  transcode_days l v sds = COk days ->
+  transcode_entries days [] = pre ++ BTxn t :: post ->
+  Forall (fun p => is_AL (p_acc p) = true ->
+                   mem (acc_name (p_acc p)) (map fst (st_open (state_after (erase_entries v pre)))) = true)
+         (t_postings t).
+Proof. exact transcode_AL_open_before_use. Qed.
+Print Assumptions C16_adjusted_account_open.
+
+(* non-vacuity: the fourth emitted item of the witness is the value adjustment; its posting on
+   Assets:P finds the open directive, its posting on Income:P does not (F16) *)
+Example C16_adjusted_account_example :
+  match transcode_days true chf c16_witness with
+  | COk days =>
+    match nth_error (transcode_entries days []) 3 with
+    | Some (BTxn t) =>
+      let st := state_after (erase_entries chf (firstn 3 (transcode_entries days []))) in
+      map (fun p => (is_AL (p_acc p), mem (acc_name (p_acc p)) (map fst (st_open st)))) (t_postings t)
+      = [(false, false); (true, true)]
+    | _ => False
+    end
+  | _ => False
+  end.
+Proof. vm_compute. reflexivity. Qed.
+
+(* The window of the step count starts at the journal's first date, not at day 0 = 0001-01-01: dates
+   of the year 0000 (which time.Parse and the model accept) are negative day numbers.  With the
+   window [0, last day] that mtm_check used first, the clause reported
+   account-total-not-mark-to-market on the correct ledger of this journal: 0.3 AAPL bought on
+   0000-06-01 and again on 0000-06-02 at 0.33333333; the ledger carries 2 * 0.09999999 = 0.19999998
+   on Assets:P, the market value is 0.6 * 0.33333333 = 0.199999998, the difference 1.8e-8 is two
+   legitimate truncations, and the allowance evaluated to 1e-8 (no booking and no day inside the
+   window).  Now the allowance is 2 bookings + 2 days * 1 commodity + 1 = 5. *)
+Definition c16_year0_witness : list sdirective :=
+  let acc s := acc_of_name s in
+  let P := [65;115;115;101;116;115;58;80] (* Assets:P *) in
+  let E := [69;113;117;105;116;121;58;69] (* Equity:E *) in
+  let aapl := [65;65;80;76] in
+  let d0 := Date.of_civil 0 6 1 in
+  [ SOpen d0 (acc P); SOpen d0 (acc E);
+    SPrice d0 aapl (mkDec 33333333 (-8)) chf;
+    STxn (mkStxn d0 [66;117;121] [mkBooking (acc E) (acc P) (mkDec 3 (-1)) aapl] None None);
+    STxn (mkStxn (d0 + 1) [66;117;121] [mkBooking (acc E) (acc P) (mkDec 3 (-1)) aapl] None None) ].
+
+Example C16_mtm_year0_example :
+  match parse_directives c16_year0_witness, transcode_days true chf c16_year0_witness with
+  | MOk dl, COk days =>
+    let a := acc_of_name [65;115;115;101;116;115;58;80] in
+    postings_syntactic_b dl = true /\ first_date dl < 0 /\ last_date dl = 0 /\
+    market_value dl chf a (last_date dl) = Some (mkDec 199999998 (-9)) /\
+    posted_total a (days_postings days) = mkDec 19999998 (-8) /\
+    step_bound dl a 0 (last_date dl) = 1 /\
+    step_bound dl a (first_date dl) (last_date dl) = 5 /\
+    mtm_check dl chf (erase_entries chf (transcode_entries days [])) = []
+  | _, _ => False
+  end.
+Proof. vm_compute. repeat split; reflexivity. Qed.
